@@ -47,10 +47,12 @@ impl<'a, 'b> InterpStack<'a, 'b> {
                             if let Some(prog) = ctx.get_program(&name) {
                                 // a stored program that fails is a failed operand, like a
                                 // failing call; it does not abort the referencing program
-                                return Ok(match self.ctx.run_raw(prog.bytecode(), true) {
-                                    Ok(val) => val.into(),
-                                    Err(err) => CelValue::from_err(err).into(),
-                                });
+                                return match self.ctx.run_raw(prog.bytecode(), true) {
+                                    Ok(val) => Ok(val.into()),
+                                    // running out of call depth ends the whole evaluation
+                                    Err(err) if err.is_max_call_depth() => Err(err),
+                                    Err(err) => Ok(CelValue::from_err(err).into()),
+                                };
                             }
                         }
 
@@ -172,7 +174,7 @@ impl<'a> Interpreter<'a> {
         let count = self.depth.inc();
 
         if count.count() > 32 {
-            return Err(CelError::runtime("Max call depth excceded"));
+            return Err(CelError::max_call_depth());
         }
 
         while pc < prog.len() {
@@ -552,15 +554,15 @@ impl<'a> Interpreter<'a> {
             }
         }
         let res = macro_(self, this.clone(), &v);
-        if self.is_compile_time() {
+        match res {
             // a macro that fails while constant folding may have met a name that is only
             // bound at run time; abandon the folding instead of handing the failure to an
             // operator that absorbs it
-            if let CelValue::Err(err) = res {
-                return Err(err);
-            }
+            CelValue::Err(err) if self.is_compile_time() => Err(err),
+            // running out of call depth ends the whole evaluation
+            CelValue::Err(err) if err.is_max_call_depth() => Err(err),
+            res => Ok(res),
         }
-        Ok(res)
     }
 
     /// Evaluates the arguments and applies `f` to them. At run time a failing argument is
@@ -573,7 +575,7 @@ impl<'a> Interpreter<'a> {
     {
         match self.resolve_args(args) {
             Ok(arg_values) => Ok(f(arg_values)),
-            Err(err) if self.is_compile_time() => Err(err),
+            Err(err) if self.is_compile_time() || err.is_max_call_depth() => Err(err),
             Err(err) => Ok(CelValue::from_err(err)),
         }
     }
@@ -599,7 +601,7 @@ impl<'a> Interpreter<'a> {
     fn construct(&self, type_name: &str, args: Vec<CelValue>) -> CelResult<CelValue> {
         let arg_values = match self.resolve_args(args) {
             Ok(arg_values) => arg_values,
-            Err(err) if self.is_compile_time() => return Err(err),
+            Err(err) if self.is_compile_time() || err.is_max_call_depth() => return Err(err),
             Err(err) => return Ok(CelValue::from_err(err)),
         };
         self.refuse_clock_while_folding(type_name, &arg_values)?;
